@@ -318,6 +318,8 @@ func (e *Engine) portfolio(o *Obl, cfg SolverCfg) {
 		if st != "sat" && st != "unsat" {
 			if ctx.Err() != nil {
 				st = "timeout"
+			} else if strings.HasPrefix(st, "(error") {
+				st = "error"
 			} else if st != "unknown" {
 				st = "unknown"
 			}
